@@ -213,7 +213,7 @@ def write_evidence(res: PropResult, meta: dict, repo: Repo, extra: Optional[dict
         "functions_indexed": sum(len(m.functions) for m in repo.modules.values()),
         "repo_root": str(repo.root),
         "alpha_normalised_functions": sum(len(getattr(m, "alpha_normalised", [])) for m in repo.modules.values()),
-        "normal_forms_applied": {k: sum(getattr(m, "normal_forms", {}).get(k, 0) for m in repo.modules.values()) for k in ("docstring", "logging", "else", "tempreturn", "annotation", "ifexp", "loop2comp", "setupdate", "flip", "anyall", "sink", "guard", "yieldfrom", "sinkcall", "dictsplat", "mergeif")},
+        "normal_forms_applied": {k: sum(getattr(m, "normal_forms", {}).get(k, 0) for m in repo.modules.values()) for k in ("docstring", "logging", "else", "tempreturn", "annotation", "ifexp", "loop2comp", "setupdate", "flip", "anyall", "sink", "guard", "yieldfrom", "sinkcall", "dictsplat", "mergeif", "unroll")},
         "known_findings_matched": [
             {"rule": h["finding"].rule, "key": h["finding"].key, "id": h["known"].get("id", "")} for h in res.known_hits
         ],
